@@ -12,7 +12,7 @@ from .. import lean
 from ..impl import Dfit, compiled_df, call, gen_matrix, to_csc, csc_tokens, classify_exc
 from ..proto import fb, vec, mat, decode, same, canon
 
-LEAN_MODULES = ["Skglm.Properties.C06", "Skglm.Properties.Cox"]
+LEAN_MODULES = ["Skglm.Properties.C06", "Skglm.Properties.Cox", "Skglm.Properties.LBFGS"]
 
 ISCALE = dict(logistic=4.0)   # 1/L_0 of doc/tutorials/intercept.md
 
